@@ -71,6 +71,13 @@ CHECKS.update({
    note="Out-of-bounds accesses of the VM's unchecked paths are detected by the additive bounds hooks (state storage, globals, upvalues, closure handles, delay sizes); stack accesses are covered only as far as they panic or crash the worker.",
    design="4/C03"),
 })
+CHECKS.update({
+ "C12": dict(
+   technique="bounded-exhaustive enumeration of closure / boxed-variant / task / aggregate programs run on the real VM with the live-closure and heap-object counts sampled after every dsp call (shape E)",
+   text="Every program of the families below the bound runs 3N samples on the VM; the number of live closures and of heap objects after sample N, 2N and 3N must be equal, and no handle-validity hook may fire (use after release).",
+   note="VM only (its closure and heap storages are the counters the property names). Growth is detected as inequality at N/2N/3N, so a leak slower than one object per N samples within 3N samples is not seen.",
+   design="4/C12"),
+})
 NOT_YET = {}
 
 def main():
